@@ -5,7 +5,7 @@
 (* printer produced it for a STAND-ALONE build of that file (mappings       *)
 (* relative to the start of the chunk's text, line breaks and last-line     *)
 (* width of the text, offset of the text from the end of the previous       *)
-(* chunk, sources index) and the delta stream of the real bundle map (one   *)
+(* chunk, the file's identity and the number of sources it contributes) and the delta stream of the real bundle map (one   *)
 (* tuple per segment, the empty tuple for ';').  TLC runs the loop of       *)
 (* generateSourceMapForChunk with AppendSourceMapChunk exactly as stated in *)
 (* SourceMap.tla (LinkAll) on the recorded chunks and compares the joined   *)
@@ -21,12 +21,24 @@ StateInit == s = 0
 StateNext == s < Len(Records) /\ s' = s + 1
 
 Rec == Records[s]
+\* a recorded mapping is <<gl, gc, ol, oc, name, src>>, src = the source within the
+\* file's OWN source list (0 for a file without an input source map)
 ToChunk(c) ==
-  WithBuf([maps |-> [i \in 1..Len(c.maps) |-> Mp(c.maps[i][1], c.maps[i][2], 0, c.maps[i][3], c.maps[i][4], c.maps[i][5])],
-           lines |-> c.lines, fcol |-> c.fcol])
-Results == [i \in 1..Len(Rec.chunks) |->
+  WithBuf([maps |-> [i \in 1..Len(c.maps) |-> Mp(c.maps[i][1], c.maps[i][2], c.maps[i][6], c.maps[i][3], c.maps[i][4], c.maps[i][5])],
+           lines |-> c.lines, fcol |-> c.fcol, nsrc |-> c.nsrc])
+\* the first loop of generateSourceMapForChunk on the REAL per-file source counts:
+\* the spec computes every file's source index base (nothing recorded is used
+\* for it but the file identities and counts)
+PassOfRec == SourcesPass([i \in 1..Len(Rec.chunks) |-> [file |-> Rec.chunks[i].file, nsrc |-> Rec.chunks[i].nsrc, null |-> FALSE]], Pass0)
+Results == LET P == PassOfRec IN
+           [i \in 1..Len(Rec.chunks) |->
               [chunk |-> ToChunk(Rec.chunks[i]), off |-> Off(Rec.chunks[i].offl, Rec.chunks[i].offc),
-               src |-> Rec.chunks[i].src, null |-> FALSE]]
+               src |-> P.idx[Rec.chunks[i].file], null |-> FALSE]]
+\* the real "sources" array has as many entries as the spec's concatenation and
+\* every file's first source stands at the base the spec computes
+SourcesOK == LET P == PassOfRec IN
+  /\ P.next = Rec.nsources
+  /\ \A i \in 1..Len(Rec.chunks) : P.idx[Rec.chunks[i].file] = Rec.chunks[i].realbase
 \* line breaks after the last mapping are not part of the recorded chunk texts
 RECURSIVE StripSemis(_)
 StripSemis(st) == IF st # <<>> /\ st[Len(st)] = SEMI THEN StripSemis(SubSeq(st, 1, Len(st) - 1)) ELSE st
@@ -37,5 +49,5 @@ FirstDiff == IF Want = Got THEN 0
                   THEN Min({i \in 1..Min({Len(Want), Len(Got)}) : Want[i] # Got[i]})
                   ELSE Min({Len(Want), Len(Got)}) + 1
 \* always TRUE as an invariant, so that one bad record does not hide the others
-Report == s = 0 \/ PrintT(<<"CASE", ToJson([i |-> s, ok |-> Want = Got, want |-> Len(Want), got |-> Len(Got), diff |-> FirstDiff])>>)
+Report == s = 0 \/ PrintT(<<"CASE", ToJson([i |-> s, ok |-> Want = Got /\ SourcesOK, srcok |-> SourcesOK, want |-> Len(Want), got |-> Len(Got), diff |-> FirstDiff])>>)
 =============================================================================
